@@ -538,6 +538,13 @@ def relay_cycles(case: Dict[str, Any]) -> Tuple[List[Tuple[str, Any]], Dict[str,
     inconclusive = False
     got: List[Any] = []
     relay = EventSubscriber(eq, callback=lambda ev: got.append(tuple(ev['event_payload'].get('id') or ())))
+    # a SECOND relay object of the product, in the same process, subscribed for the whole history: two subscribers are two
+    # subscriptions - everything published while it is subscribed (cycle events, the events between cycles, the sentinels)
+    # reaches it exactly once and in order, whatever the first relay subscribes and unsubscribes meanwhile
+    got2: List[Any] = []
+    relay2 = EventSubscriber(eq, callback=lambda ev: got2.append(tuple(ev['event_payload'].get('id') or ()))) if case.get('second_relay') else None
+    pub2: List[Any] = []
+    second_checked = 0
     wit = Reader('witness', duplex=True)
     wit.start()
     checked = 0
@@ -558,6 +565,10 @@ def relay_cycles(case: Dict[str, Any]) -> Tuple[List[Tuple[str, Any]], Dict[str,
             time.sleep(0.002)
         if not wit.subscribed.is_set():
             inconclusive = True
+        if relay2 is not None and not inconclusive:
+            relay2.setup()
+            if not barrier(('second', 0)):
+                inconclusive = True
         for cyc in range(case['cycles']):
             if inconclusive or bad:
                 break
@@ -565,6 +576,7 @@ def relay_cycles(case: Dict[str, Any]) -> Tuple[List[Tuple[str, Any]], Dict[str,
             n = rng.choice([1, 3, 20])
             for k in range(n):
                 eq.publish(request_id='r', event_name=eventNames.WORK_STARTED, event_payload={'id': ['C', cyc, k]}, publisher_id='h')
+                pub2.append(('C', cyc, k))
             if not barrier(('in', cyc)):
                 if dt.is_alive():
                     inconclusive = True
@@ -597,6 +609,7 @@ def relay_cycles(case: Dict[str, Any]) -> Tuple[List[Tuple[str, Any]], Dict[str,
             relay.shutdown()        # UNSUBSCRIBE is queued before anything published below
             for k in range(rng.choice([0, 2])):
                 eq.publish(request_id='r', event_name=eventNames.WORK_STARTED, event_payload={'id': ['X', cyc, k]}, publisher_id='h')
+                pub2.append(('X', cyc, k))
             if not barrier(('out', cyc)):
                 if dt.is_alive():
                     inconclusive = True
@@ -604,6 +617,26 @@ def relay_cycles(case: Dict[str, Any]) -> Tuple[List[Tuple[str, Any]], Dict[str,
                     bad.append(('dispatcher-thread-died', None))
                 break
             cycles_done += 1
+        if relay2 is not None and not inconclusive and not bad:
+            # the witness holds the last sentinel: the dispatcher has fanned out everything published so far.  A verdict needs
+            # more than silence: either the second relay holds that sentinel too (its channel is ordered, so whatever is
+            # missing before it was lost), or the dispatcher's table has no separate channel for it (witness + second relay,
+            # the first relay being unsubscribed now); silence alone, on a loaded machine, is inconclusive
+            last = ('S', ('out', case['cycles'] - 1))
+            end = time.time() + WAIT_S
+            while time.time() < end and last not in got2 and len(disp.subscribers) >= 2:
+                time.sleep(0.002)
+            mine2 = [x for x in got2 if x and x[0] in ('C', 'X')]
+            second_checked = len(mine2)
+            if last in got2:
+                if mine2 != pub2:
+                    kind = 'lost' if len(set(mine2)) < len(pub2) else ('duplicate' if len(mine2) > len(set(mine2)) else 'reordered')
+                    bad.append(('second-relay-%s' % kind, {'got': len(mine2), 'want': len(pub2), 'first_missing': next((x for x in pub2 if x not in mine2), None)}))
+            elif len(disp.subscribers) < 2:
+                bad.append(('second-relay-has-no-subscription-of-its-own', {'got': len(mine2), 'want': len(pub2), 'subscriptions': len(disp.subscribers),
+                                                                            'same_id': relay2.relay_sub_id == relay.relay_sub_id}))
+            else:
+                inconclusive = True
         stray = [x for x in got if x and x[0] in ('X',)]
         if stray:
             bad.append(('relay-delivered-event-published-while-unsubscribed', {'events': stray[:5]}))
@@ -616,6 +649,11 @@ def relay_cycles(case: Dict[str, Any]) -> Tuple[List[Tuple[str, Any]], Dict[str,
                 relay.shutdown()
         except Exception:
             pass
+        try:
+            if relay2 is not None and relay2.relay_thread is not None:
+                relay2.shutdown()
+        except Exception:
+            pass
         dt.join(timeout=3)
         wit.close()
         for c in list(disp.subscribers.values()):
@@ -624,7 +662,8 @@ def relay_cycles(case: Dict[str, Any]) -> Tuple[List[Tuple[str, Any]], Dict[str,
             except Exception:
                 pass
         dispose_queue(mpq)
-    c = {'relay_cycles': cycles_done, 'relay_deliveries_checked': checked, 'relay_resetups': max(0, cycles_done - 1)}
+    c = {'relay_cycles': cycles_done, 'relay_deliveries_checked': checked, 'relay_resetups': max(0, cycles_done - 1),
+         'second_relay_deliveries_checked': second_checked}
     if inconclusive:
         c['_inconclusive'] = 1
     return bad, c
@@ -852,7 +891,7 @@ def cases(tier: str, seed: int):
         yield {'seed': seed, 'i': i, 'kind': 'hist', 'histories': hs, 'via_queue': True, 'pipes': [rng.random() < 0.7]}
     for k in range(4 if tier == 'quick' else 40):
         i += 1
-        yield {'seed': seed, 'i': i, 'kind': 'relay-cycles', 'cycles': rng.choice([2, 3])}
+        yield {'seed': seed, 'i': i, 'kind': 'relay-cycles', 'cycles': rng.choice([2, 3]), 'second_relay': k % 2 == 0}
     for k in range(3 if tier == 'quick' else 30):
         i += 1
         yield {'seed': seed, 'i': i, 'kind': 'manager-burst', 'events': [3000, 6000, 12000][k % 3]}
@@ -867,7 +906,7 @@ def floors(tier: str) -> Dict[str, int]:
     return {'histories': 3000, 'nontrivial_histories': 1000, 'breaks': 500, 'breaks_with_unread_data': 100,
             'deliveries_checked': 5000, 'via_queue': 100, 'stress_runs': 10, 'stress_deliveries_checked': 5000,
             'stress_mid_subscribers': 8, 'stress_mid_must_events': 200, 'stress_breakers': 3,
-            'resubscribes': 100, 'relay_cycles': 6, 'relay_resetups': 3, 'burst_runs': 2, 'burst_events_delivered': 15000}
+            'resubscribes': 100, 'relay_cycles': 6, 'relay_resetups': 3, 'second_relay_deliveries_checked': 10, 'burst_runs': 2, 'burst_events_delivered': 15000}
 
 
 if __name__ == '__main__':
